@@ -36,13 +36,82 @@ def jobs_for(ck, exe, evict):
     return jobs
 
 
+def pages_worker(args):
+    """page cache through a real server: triggers recorded while a page is built (explicit, and inherited from frames) invalidate it"""
+    import random
+    from .. import proto, srv
+    basedir, exe, seed, ncases, windex = args
+    rnd = random.Random(seed)
+    res = {"viol": [], "counters": {}, "samples": [], "fail": None}
+
+    def cnt(k, n=1):
+        res["counters"][k] = res["counters"].get(k, 0) + n
+    S = None
+    try:
+        S = srv.Server(basedir, exe, "pg%d" % windex)
+        expect_hit = {}
+
+        def get(script, tok, app):
+            r = proto.Req(method=b"GET", script=app, query=b"s=" + script.encode() + b"&tok=" + tok, token=tok)
+            c = srv.Conn(S, "http")
+            c.send(proto.http_encode(r))
+            raw, _ = c.recv_all(10)
+            c.close()
+            return proto.http_parse_response(raw)
+        for ci in range(ncases):
+            app = rnd.choice([b"/writer", b"/awriter"])
+            P, F, Tp, Tf = (b"%s-%d-%d" % (x, windex, ci) for x in (b"page", b"frame", b"tp", b"tf"))
+            pre_frame = rnd.random() < 0.5
+            script = "K%s,T%s,G%s.%s,w40.%d" % (P.hex(), Tp.hex(), F.hex(), Tf.hex(), ci % 997)
+            if pre_frame:
+                # another page builds the frame first, so this page inherits the frame's triggers through a frame *hit*
+                get("G%s.%s,w5.1" % (F.hex(), Tf.hex()), b"pre%d" % ci, app)
+            t1, t2, t3 = (b"p%d-%d-r%d" % (windex, ci, k) for k in (1, 2, 3))
+            d1 = get(script, t1, app)
+            d2 = get(script, t2, app)
+            what = rnd.choice(["page-trigger", "frame-trigger", "frame-key", "page-key", "nothing", "unrelated"])
+            trig = {"page-trigger": Tp, "frame-trigger": Tf, "frame-key": F, "page-key": P, "unrelated": b"zzz"}.get(what)
+            if trig is not None:
+                get("R%s" % trig.hex(), b"rise%d" % ci, b"/writer")
+            d3 = get(script, t3, app)
+            cnt("page_scenarios")
+            cnt("page_scenarios_" + what)
+            expect_hit[t1.decode()] = (False, what, pre_frame)
+            expect_hit[t2.decode()] = (True, what, pre_frame)
+            expect_hit[t3.decode()] = (what in ("nothing", "unrelated"), what, pre_frame)
+            if not (d1["status"] == d2["status"] == d3["status"] == 200 and d1["body"] == d2["body"] == d3["body"]):
+                res["viol"].append({"key": "cache:page-body-differs-between-build-and-cache", "detail": what, "replay": {"script": script}})
+                break
+        S.stop()
+        key, detail = S.death_report()
+        if key:
+            res["viol"].append({"key": key, "detail": detail, "replay": None})
+        hits = set(e["token"] for e in S.events() if e.get("ev") == "cache_hit")
+        for tok, (want, what, pre) in expect_hit.items():
+            if (tok in hits) != want:
+                res["viol"].append({"key": ("cache:page-served-from-cache-after-its-trigger-was-raised:" + what) if not want else "cache:live-page-not-found",
+                                    "detail": "token %s, raised: %s, frame %s" % (tok, what, "fetched from cache while building" if pre else "built inside the page"), "replay": None})
+                break
+            cnt("page_expectations_checked")
+    except Exception as e:  # harness failure
+        import traceback
+        res["fail"] = "%r\n%s\n%s" % (e, traceback.format_exc()[-1500:], S.stderr()[-800:] if S else "")
+        if S:
+            S.stop()
+    return res
+
+
 def run(ck):
     exe = ck.build("asan", ["cache_mon"])["cache_mon"]
     sa.run_jobs(ck, jobs_for(ck, exe, evict=False), sets=("states",))
+    from . import c01
+    vsrv = ck.build("asan", ["vsrv"])["vsrv"]
+    npages = int((3000 if ck.tier == "thorough" else 60) * ck.scale)
+    c01.run_workers(ck, pages_worker, [(ck.rundir, vsrv, sa.subseed(ck, 700 + i), npages, i) for i in range(8)])
     ck.assumptions += [
         "hit iff present and now <= deadline (the comparison all back ends implement); virtual clock through a link-time time() shim",
         "a store that a process-shared cache cannot perform for lack of memory may be dropped, but must not leave the previous value for that key",
-        "page-level trigger propagation (store_page) needs an HTTP context and is exercised by the C03 monitor; here frames and recorders are driven through cache_interface(service&)",
+        "page-level trigger propagation (fetch_page/store_page) is driven through the server harness: a page with an explicit trigger and a frame (built inside or fetched from cache) must be rebuilt after any of them is raised, and served from cache otherwise",
     ]
     ck.finish("exploration",
               "every operation sequence of depth %d over {store x 2 keys x 3 trigger sets x 2 deadlines, fetch, rise x 3, remove, clear, tick} (21 symbols) on the thread-shared cache and depth %d on the process-shared one, "
@@ -50,4 +119,4 @@ def run(ck):
               "trigger recorders; after every operation the fetch result, stats() and a full dump taken through the guarded hook (index invariants included) are compared with an executable model. "
               "non-trivial = distinct model states reached" % ((5, 4) if ck.tier == "thorough" else (4, 3)),
               "ops", "states", min_evals=100000,
-              required_nonzero=("hits", "misses_absent", "misses_expired", "rise_killed", "dumps", "frames_built", "sequences", "histories"))
+              required_nonzero=("hits", "misses_absent", "misses_expired", "rise_killed", "dumps", "frames_built", "sequences", "histories", "page_expectations_checked", "page_scenarios_frame-trigger", "page_scenarios_nothing"))
